@@ -63,6 +63,7 @@ def run(chk):
                     seen.setdefault(("lint", side), set()).add(res[side].get(f"l{i}_{k}", ""))
                     seen.setdefault(("parse", side), set()).add(res[side].get(f"p{i}_{k}", ""))
         for (what, side), vals in seen.items():
+            vals = {v for v in vals if not v.startswith("timeout")}      # a run cut off by the time limit is not a result
             if len(vals) > 1:
                 bad += 1
                 if bad <= 4:
